@@ -229,6 +229,37 @@ def project_layouts(rng, seeds, count):
         out.append(("layout", files))
     return out
 
+def semantic_family(rng, n):
+    """syntactically well-formed programs with SEMANTIC errors whose detection walks the control-flow graph or the scopes: value-returning
+    functions / methods / function literals that can leave a loop (or a match arm, or an if chain) and fall off their end, unreachable code
+    after exits inside loops, wrongly typed returns, undeclared names and borrow conflicts inside loops (seed C13e: the backward walk that
+    labels the branches missing a return did not terminate on a loop).  Oracle: the generic one (terminates, no crash, exit 1, located)."""
+    loops = ["while i < n { i = i + 1; }", "while true { if i > 3 { break; } i = i + 1; }", "for j in 0..n { i = i + j; }",
+             "while i < n { while i < 2 { i = i + 1; } i = i + 1; }", "for j in 0..n { if j == 2 { continue; } i = i + j; }",
+             "while i < n { if i == 1 { return 7; } i = i + 1; }", "for j in 0..=n:2 { for k in 0..j { i = i + k; } }",
+             "while i < n { match i { 1 => { i = i + 2; } _ => { i = i + 1; } } }"]
+    def wrap(l):
+        c = rng.randrange(7)
+        if c == 0: return l
+        if c == 1: return "if n > 1 { %s } else { return 1; }" % l
+        if c == 2: return "match n { 1 => { %s } 2 => { return 5; } _ => { return 2; } }" % l
+        if c == 3: return "{ %s }" % l
+        if c == 4: return "%s %s" % (l, rng.choice(loops))
+        if c == 5: return "if n > 1 { return 3; } else if n > 0 { %s } else { return 4; }" % l
+        return "if n > 1 { %s }" % l
+    tails = ["", "", "", "io::Println(i);", "let z: bool = i;", "return true;", "i = undefined_name;", "if i > 2 { return i; }",
+             "return i; io::Println(i);", "let r: &'i32 = &'i; let q: &'i32 = &'i; io::Println(r, q);"]
+    out = []
+    for _ in range(n):
+        body = "let i := 0; %s %s" % (wrap(wrap(rng.choice(loops))), rng.choice(tails))
+        c = rng.randrange(4)
+        if c == 0: src = "fn f(n: i32) -> i32 { %s }\nfn main() { io::Println(f(3)); }\n" % body
+        elif c == 1: src = "type T struct { .V: i32 };\nfn (t: T) m(n: i32) -> i32 { %s }\nfn main() { let t := { .V = 1 } as T; io::Println(t.m(3)); }\n" % body
+        elif c == 2: src = "fn main() { let g := fn(n: i32) -> i32 { %s }; io::Println(g(3)); }\n" % body
+        else: src = "fn h(a: i32) -> str ! i32 { if a == 0 { return \"z\"!; } return a; }\nfn f(n: i32) -> i32 { let v := h(n) catch e { %s }; return v; }\nfn main() { io::Println(f(3)); }\n" % body
+        out.append(("semantic", {"main.fer": ('import "std/io";\n' + src).encode()}))
+    return out
+
 def gen_stream(rng, seeds, lexed, n_mut, n_rand, n_imp, n_lay):
     """returns list of (kind, files dict)"""
     cases = []
@@ -1129,6 +1160,7 @@ def main(run):
     cases = gen_stream(rng, seeds, lexed, nm, nm // 5, 60 if quick else 300, nm // 8)
     for s in seeds[:6]:
         cases.append(("seed", {"main.fer": s}))
+    cases += semantic_family(rng, 80 if quick else 600)
     cdir = os.path.join(common.VERIF, "corpus", "C13")        # minimised past failures, replayed on every run
     if os.path.isdir(cdir):
         for fn in sorted(os.listdir(cdir)):
